@@ -91,7 +91,9 @@ def table_rules(res, t):
 def prefix_composition(repo, res):
     r2 = res.rule("C02-R2", "_lookup_unit_symbol: prefixed row = (base scale * prefix value, base dimension, base offset, ., False)", floor=6)
     mod = repo.mod(REG)
-    fn = mod.func("_lookup_unit_symbol")
+    from rules.anchors import lookup_symbol
+
+    fn = lookup_symbol(repo)
     res.fn(fn)
     ex = Expander(fn)
     sym, lut = fn.params[0], fn.params[1]
@@ -243,9 +245,12 @@ def homomorphism(repo, res):
         found = [norm(x) for x in loops[0].body]
     res.check(ok, "walk:Mul", fn.where(ml), "Mul arm: scale and dimension accumulators must both be multiplied by the factor's own [0] and [1], starting from 1", found=found, rid=r3)
     # Symbol arm
+    from rules.anchors import lookup_symbol
+
+    LK = lookup_symbol(repo).name
     sy = arms["Symbol"]
     rets = [n for n in ast.walk(sy) if isinstance(n, ast.Return)]
-    res.check(len(rets) == 1 and norm(rets[0].value) == f"_lookup_unit_symbol({e}.name, {lut})", "walk:Symbol", fn.where(sy), "Symbol arm must look the symbol's own name up in the given table", rid=r3)
+    res.check(len(rets) == 1 and norm(rets[0].value) == f"{LK}({e}.name, {lut})", "walk:Symbol", fn.where(sy), "Symbol arm must look the symbol's own name up in the given table", rid=r3)
     # Number arm
     nu = arms["Number"]
     rets = [norm(n.value) for n in ast.walk(nu) if isinstance(n, ast.Return)]
